@@ -316,7 +316,11 @@ async fn batch_candidates(
     mut tripwire: Tripwire,
 ) {
     const PROCESS_CHANGES_THRESHOLD: usize = 1000;
+    #[cfg(not(feature = "verif"))]
     const PROCESS_BUFFER_DEADLINE: Duration = Duration::from_millis(600);
+    #[cfg(feature = "verif")]
+    #[allow(non_snake_case)]
+    let PROCESS_BUFFER_DEADLINE: Duration = crate::verif::buffer_deadline();
     const MAX_CACHE_ENTRIES: usize = 2000;
     const KEEP_CACHE_ENTRIES: usize = 1000;
 
@@ -410,6 +414,8 @@ async fn batch_candidates(
             histogram!("corro.updates.changes.processing.duration.seconds", "table" => id.to_string()).record(elapsed);
 
             buf_count = 0;
+            #[cfg(feature = "verif")]
+            crate::verif::batch_done();
 
             // reset the deadline
             process_changes_deadline
